@@ -1,6 +1,6 @@
 """C04 -- all output formats carry the same text, escaped for the target.
 
-TextModel.tla: the text positions (16 slots), the reserved characters and the set of escaped forms each target allows; block documents with
+TextModel.tla: the text positions (24 slots), the reserved characters and the set of escaped forms each target allows; block documents with
 numbered words and the order each format must show them in; the Dyck predicate for markup nesting.  TLC enumerates every (slot, character)
 combination and every block sequence of <= 3 (thorough 4) kinds; each is rendered in the 6 textual formats; the raw output is projected to
 (a) the segments between the text markers, (b) the sequence of numbered words, (c) open/close events of elements / environments / groups, and
@@ -53,7 +53,7 @@ def run(tier, seed):
         for j, c in enumerate(esc[i:i + per]):
             s.append(line("src", "e%d" % j, sx(c["src"]))); s.append(line("src", "b%d" % j, sx(c["base"])))
             for f in FM:
-                x = NOSMART | (E["COMPLETE"] if c["slot"] == "meta" else 0)
+                x = NOSMART | (E["COMPLETE"] if c["slot"] in ("meta", "glossary", "abbrev") else 0)      # (a LaTeX glossary entry is defined in the preamble: only the complete document shows it)
                 fam = "s_data" if f == "fodt" else "s_conv"          # the flat OpenDocument is a document only through convert_to_data
                 s.append(line("conv", fam, "e%d" % j, docs.FMT[f], x, 0)); s.append(line("conv", fam, "b%d" % j, docs.FMT[f], x, 0))
         segs.append(s); meta.append(("esc", i))
@@ -85,7 +85,7 @@ def run(tier, seed):
                 b = blocks[base + int(sid[1:])]
                 words = [int(x) for x in re.findall(rb"W(\d+)W", out or b"")]
                 trace.append(dict(e="order", null=out is None, fmt="html" if fmt == "html" else "other", fmtname=fmt, ks=b["ks"], words=words, src=b["src"]))
-            if kind == "esc" and esc[base + int(sid[1:])]["slot"] == "meta" and fmt in ("latex", "beamer", "memoir"):
+            if kind == "esc" and esc[base + int(sid[1:])]["slot"] in ("meta", "glossary", "abbrev") and fmt in ("latex", "beamer", "memoir"):
                 continue        # a complete LaTeX document opens \begin{document} inside the \input support file: nesting cannot be judged from this file alone
             ok, evs, _ = nesting(fmt, out or b"")
             trace.append(dict(e="nest", fmtname=fmt, parsed=ok, events=evs, src=(esc[base + int(sid[1:])]["src"] if kind == "esc" else blocks[base + int(sid[1:])]["src"])))
@@ -93,7 +93,7 @@ def run(tier, seed):
     chk.add("traces_validated_against_impl", len(segs) - len(problems))
     chk.add("trace_events_validated", acc)
     chk.cov["evaluations"] = nconv; chk.cov["distinct_nontrivial"] = len(esc) + len(blocks)
-    chk.cov["rule"] = "escaping cases = 16 slots x 16 characters (each with its plain-text twin) x 6 formats; order cases = every sequence of <= %d block kinds of 9 + simulated 7-block sequences x 6 formats; nesting checked on every output" % (3 if tier == "quick" else 4)
+    chk.cov["rule"] = "escaping cases = 24 slots x 16 characters (each with its plain-text twin) x 6 formats; order cases = every sequence of <= %d block kinds of 9 + simulated 7-block sequences x 6 formats; nesting checked on every output" % (3 if tier == "quick" else 4)
     chk.sample(dict(src=esc[17]["src"], slot=esc[17]["slot"], ch=esc[17]["ch"])); chk.sample(dict(src=blocks[50]["src"], ks=blocks[50]["ks"]))
     seen = {}
     for seg, idx in rejected:
